@@ -93,7 +93,7 @@ def run(ctx: Ctx, env):
         for kind, (via, slot) in sorted(seen.items()):
             if kind not in schema.classes:
                 continue
-            has = H.resolve_visit(vcls, kind) is not None
+            has = H.resolve_visit(vcls, kind) is not None or H.generic_refuses(vcls)
             w = {"Attribute": "rel/a eq 1", "Time": "t eq 12:00:00", "Geography": "g eq geography'POINT(1 2)'", "USub": "-a gt 5",
                  "NamedParam": "ns.f(x=1) eq 1", "Lambda": "items/any(i: i/v eq 1)", "CollectionLambda": "items/any(i: i/v eq 1)",
                  "Any": "items/any()", "All": "items/all(i: i eq 1)", "Null": "null eq a"}.get(kind, f"{witness.LITERALS.get(kind, kind)} eq 1")
@@ -213,7 +213,11 @@ def run(ctx: Ctx, env):
                 owner_short = ".".join(handler_q.rsplit(".", 2)[-2:])
                 if p.outcome == "return":
                     v = p.value
-                    for g in _bare_getattrs(v):
+                    # a getattr whose result is then required to be a mapped ORM attribute is a guarded lookup
+                    guarded = any(k.startswith("isinstance(getattr(") and val is True and
+                                  any(c in k for c in ("InstrumentedAttribute", "QueryableAttribute", "ColumnProperty", "Mapped"))
+                                  for k, val in p.conds)
+                    for g in ([] if guarded else _bare_getattrs(v)):
                         ctx.fail("R7.unknown-field-is-invalid-field", f"{owner_short}|getattr",
                                  f"[{vs}] the field is looked up with a bare getattr({g[0]}, <name from the filter>): names that are attributes of the "
                                  "model class but not mapped columns (metadata, registry, ...) are returned instead of raising InvalidFieldException",
